@@ -19,7 +19,6 @@ Theorem c07_bolt :
   (stable bolt_parse) /\
   (* c07_segmentation_independent_bolt *)
   (forall chunks,
-  no_reply (feed bolt_parse init (concat chunks)) ->
   fold_left (feed bolt_parse) chunks init = feed bolt_parse init (concat chunks)) /\
   (* c07_valid_stream_bolt *)
   (forall fs t chunks,
@@ -34,7 +33,6 @@ Theorem c07_boltv2 :
   (stable boltv2_parse) /\
   (* c07_segmentation_independent_boltv2 *)
   (forall chunks,
-  no_reply (feed boltv2_parse init (concat chunks)) ->
   fold_left (feed boltv2_parse) chunks init = feed boltv2_parse init (concat chunks)) /\
   (* c07_valid_stream_boltv2 *)
   (forall fs t chunks,
@@ -49,9 +47,9 @@ Proof. exact (conj boltv2_parse_stable (conj (seg_independent boltv2_parse boltv
 Print Assumptions c07_boltv2.
 
 (* For EVERY byte string and EVERY way of cutting it into reads the connection ends in exactly the state of
-   delivering it in one read: same frames, same order, each once, same residue, closed in one iff in the other.
-   (no_reply: the one-read run did not answer a request carrying an undecodable header block; after such a reply
-   Dispatch returns and leaves the rest of the buffer for the next read - outside the property's valid streams.) *)
+   delivering it in one read: same frames and error replies, same order, each once, same residue, closed in one iff
+   in the other.  (Dispatch goes on with the buffer after answering a request that carries an undecodable header block:
+   the repaired conn.go, see c07_dispatch_shape_ok.) *)
 
 (* The property as worded: for every concatenation of valid frames (fs: each byte string decodes to exactly its
    frame) followed by an incomplete frame t, and every segmentation: these frames come out, in order, each once;
@@ -100,7 +98,7 @@ Theorem c07_dubbo :
   concat chunks = concat (map snd fs) ++ t ->
   fold_left (feed (dubbo_parse_nz hess)) chunks init =
   {| buf := t; out := map (fun fb => EFrame (fst fb)) fs; dead := false; stuck := false |}).
-Proof. exact (conj dubbo_parse_eq (conj dubbo_parse_nz_stable (conj (fun hess => seg_independent_nr _ (dubbo_parse_nz_stable hess) (dubbo_never_reply hess)) (fun hess => seg_valid_stream _ (dubbo_parse_nz_stable hess))))). Qed.
+Proof. exact (conj dubbo_parse_eq (conj dubbo_parse_nz_stable (conj (fun hess => seg_independent _ (dubbo_parse_nz_stable hess)) (fun hess => seg_valid_stream _ (dubbo_parse_nz_stable hess))))). Qed.
 Print Assumptions c07_dubbo.
 Theorem c07_thrift :
   (* c07_prefix_stable_thrift *)
@@ -114,7 +112,7 @@ Theorem c07_thrift :
   concat chunks = concat (map snd fs) ++ t ->
   fold_left (feed (thrift_parse tp)) chunks init =
   {| buf := t; out := map (fun fb => EFrame (fst fb)) fs; dead := false; stuck := false |}).
-Proof. exact (conj thrift_parse_stable (conj (fun tp => seg_independent_nr _ (thrift_parse_stable tp) (thrift_never_reply tp)) (fun tp => seg_valid_stream _ (thrift_parse_stable tp)))). Qed.
+Proof. exact (conj thrift_parse_stable (conj (fun tp => seg_independent _ (thrift_parse_stable tp)) (fun tp => seg_valid_stream _ (thrift_parse_stable tp)))). Qed.
 Print Assumptions c07_thrift.
 Theorem c07_tars :
   (* c07_prefix_stable_tars *)
@@ -128,7 +126,7 @@ Theorem c07_tars :
   concat chunks = concat (map snd fs) ++ t ->
   fold_left (feed (tars_parse st rp)) chunks init =
   {| buf := t; out := map (fun fb => EFrame (fst fb)) fs; dead := false; stuck := false |}).
-Proof. exact (conj tars_parse_stable (conj (fun st rp => seg_independent_nr _ (tars_parse_stable st rp) (tars_never_reply st rp)) (fun st rp => seg_valid_stream _ (tars_parse_stable st rp)))). Qed.
+Proof. exact (conj tars_parse_stable (conj (fun st rp => seg_independent _ (tars_parse_stable st rp)) (fun st rp => seg_valid_stream _ (tars_parse_stable st rp)))). Qed.
 Print Assumptions c07_tars.
 
 
@@ -140,6 +138,11 @@ Example c07_dubbo_example :
 Proof. eexists. split; [unfold frame_bytes_ok; cbn [fst snd]; vm_compute; reflexivity|right; vm_compute; reflexivity]. Qed.
 
 (* ===== protocol matchers and automatic protocol detection ===== *)
+(* stream/xprotocol/conn.go Dispatch has the shape of Lib/Seg.v drain: after handleError answered a request the loop
+   goes on in a new stream context; it returns only when the connection was closed *)
+Theorem c07_dispatch_shape_ok : dispatch_continues_after_reply = true.
+Proof. exact eq_refl. Qed.
+
 (* protocol/api.go SelectStreamFactoryProtocol has the shape of Model/Matchers.v `select` (read from the source):
    the first accepting factory wins, otherwise EAGAIN iff some matcher said EAGAIN, otherwise FAILED *)
 Theorem c07_select_shape_ok : select_shape_ok = true.
